@@ -27,7 +27,7 @@ RULE = ("Arc subsets (complete graph minus random arcs, optionally with upstream
         "numpy.random.seed(random) and for r = 1; regular graphs (exactly d live successors per live vertex, d = 1..4) built from "
         "threshold-d closed graphs; arbitrary arc subsets and the arc-less graph for the <= 2 / == 0 claims. Non-trivial: the "
         "graph is not regular (the answer is not log2 of an integer by construction); distinct = hash of (graph, repeats)."
-        ' Also: graphs with a uniform raw out-degree whose arcs partly lead to arc-less vertices, and unpruned sparse arc subsets (sources, dead ends, thin cores) at orders 2-3; repeats = 1, 2 and one of 3/5/10 on every judged graph.')
+        ' Also: graphs with a uniform raw out-degree whose arcs partly lead to arc-less vertices, and unpruned sparse arc subsets (sources, dead ends, thin cores; arc densities 0.25-0.7) at orders 2-4; repeats = 1, 2 and one of 3/5/10 on every judged graph.')
 TOL = 1e-4 + 1e-8
 
 
@@ -123,6 +123,12 @@ def analyse(acc):
         return out
     out.update(ok=True, why="", ratio=float(ratio))
     return out
+
+
+def cheap_precondition(acc):
+    """Necessary part of the precondition (exactly one non-trivial strongly connected component) - a fast pre-filter."""
+    comps = [c for c in G.scc_list(acc) if len(c) > 1 or acc[c[0]][c[0] % 4] == c[0]]
+    return len(comps) == 1
 
 
 def first_two_estimates(acc):
@@ -253,7 +259,7 @@ def generate(ctx):
     for _ in range(ctx.pick(500, 4000)):
         k = rng.choice(ks)
         fam = rng.choice(["dense", "dense", "trigger", "trigger", "generated", "tails", "arc", "uniform-raw-degree", "uniform-raw-degree",
-                          "sparse", "sparse", "sparse", "sparse"])
+                          "sparse", "sparse", "sparse", "sparse", "sparse-low", "sparse-low", "sparse-low", "sparse-low"])
         if fam in ("dense", "trigger"):
             acc = _dense_minus(rng, k, fam == "trigger")
         elif fam == "generated":
@@ -264,6 +270,17 @@ def generate(ctx):
                 acc = _with_tails(rng, acc, k)
         elif fam == "uniform-raw-degree":
             acc = _uniform_raw_degree(rng, k)
+        elif fam == "sparse-low":
+            # arc density 0.25-0.35: low-capacity graphs with chains of out-degree-1 vertices, where the largest entry of the
+            # iterate can sit on a chain while the branching vertices are still catching up
+            k = rng.choice([2, 3, 3, 3, 4])
+            n = 4 ** k
+            acc = -np.ones((n, 4), dtype=int)
+            d = rng.choice([0.25, 0.3, 0.35])
+            for v in range(n):
+                for j in range(4):
+                    if rng.random() < d:
+                        acc[v, j] = (v * 4 + j) % n
         elif fam == "sparse":
             # unpruned sparse arc subsets (sources without incoming arcs, dead ends, thin cyclic cores); most fall outside
             # the precondition and are only used for the <= 2 claim, the rest are judged
@@ -280,6 +297,17 @@ def generate(ctx):
         if acc is None or not (acc >= 0).any():
             continue
         yield "capacity", dict(gens.graph_case(acc, k), fam=fam, npseed=rng.getrandbits(32))
+    for _ in range(ctx.pick(1200, 10000)):
+        k = rng.choice([2, 3, 3, 3])
+        n = 4 ** k
+        d = rng.choice([0.25, 0.3, 0.35])
+        acc = -np.ones((n, 4), dtype=int)
+        for v in range(n):
+            for j in range(4):
+                if rng.random() < d:
+                    acc[v, j] = (v * 4 + j) % n
+        if (acc >= 0).any() and cheap_precondition(acc):
+            yield "capacity", dict(gens.graph_case(acc, k), fam="sparse-low", npseed=rng.getrandbits(32))
     for gi, (k, d) in enumerate([(2, 2), (2, 3), (3, 2), (3, 3), (4, 2), (4, 3)]):
         for dead in (0, 4 ** k - 1, None):
             if ctx.mine(gi):
@@ -339,8 +367,8 @@ def check_capacity(ctx, case):
     lo, hi = np.log2(info["rho_lo"]), np.log2(info["rho_hi"])
     e1, e2 = first_two_estimates(acc)
     trigger = reg is None and e1 == e2
-    for r in (1, 2, ctx.rng.choice([3, 5, 10])):
-        val = _cap(ctx, dsw, facc, r, where, npseed=case["npseed"] + r)
+    for r in (1, 2, 2, ctx.rng.choice([3, 5, 10]), ctx.rng.choice([3, 5, 10])) if case["fam"] == "sparse-low" else (1, 2, ctx.rng.choice([3, 5, 10])):
+        val = _cap(ctx, dsw, facc, r, where, npseed=(case["npseed"] + r + ctx.rng.getrandbits(16)) % 2 ** 32)
         if val is None:
             continue
         err = max(lo - val, val - hi, 0.0)
@@ -481,7 +509,7 @@ def floors(agg, tier):
     c = agg["classes"]
     for name, need in (("precondition graph", 300), ("non-regular graph whose first two estimates coincide", 30),
                        ("bounds|arc-less", 2), ("bounds|any graph", 100), ("precondition graph|tails", 20),
-                       ("precondition graph|generated", 20), ("precondition graph|sparse", 100), ("accessor layout|F", 50),
+                       ("precondition graph|generated", 20), ("precondition graph|sparse", 100), ("precondition graph|sparse-low", 300), ("accessor layout|F", 50),
                        ("capacity re-requested after in-place edits of the same accessor", 50), ("regular|order 8", 1), ("regular|one arc-less vertex 0", 6),
                        ("non-regular graph with a uniform raw out-degree (arcs into arc-less vertices)", 15)):
         if c.get(name, 0) < need:
